@@ -10,12 +10,21 @@
 
 #include <string.h>  // memcpy
 
+#ifdef BBLANCHON_ARDUINOJSON_VERIF
+namespace verif {
+struct Inspector;
+}
+#endif
+
 ARDUINOJSON_BEGIN_PRIVATE_NAMESPACE
 
 using PoolCount = SlotId;
 
 template <typename T>
 class MemoryPoolList {
+#ifdef BBLANCHON_ARDUINOJSON_VERIF
+  friend struct ::verif::Inspector;
+#endif
   struct FreeSlot {
     SlotId next;
   };
